@@ -2,6 +2,7 @@
 C17 — property theorems, CV certificates (btok_cvc.c).  Model: ModelCVC.lean; signature layer abstract (Laws.lean).
 -/
 import Bee2V.C17.LemmasCVC
+import Bee2V.C17.LemmasCvcRT
 namespace Bee2V.C17
 
 /-- a C string literal as octets -/
@@ -12,11 +13,8 @@ def cstr' (s : String) : Bytes := s.toUTF8.toList
 theorem cvcCheck_ok_iff (S : Sig) (c : Cvc) :
     cvcCheck S c = .ok ↔
       nameIsValid c.authority = true ∧ nameIsValid c.holder = true ∧ dateIsValid c.from_ = true ∧
-      dateIsValid c.until_ = true ∧ dateLeq c.from_ c.until_ = true ∧ S.pubkeyVal c.pubkey = .ok := by
-  unfold cvcCheck
-  cases nameIsValid c.authority <;> cases nameIsValid c.holder <;> cases dateIsValid c.from_ <;>
-    cases dateIsValid c.until_ <;> cases dateLeq c.from_ c.until_ <;> simp
-
+      dateIsValid c.until_ = true ∧ dateLeq c.from_ c.until_ = true ∧ S.pubkeyVal c.pubkey = .ok :=
+  cvcCheck_ok_iff' S c
 example : cvcCheck ⟨fun _ => (.ok, []), fun _ => .ok, fun _ _ => .ok, fun _ _ => (.ok, []), fun _ _ _ => .ok⟩
     ⟨cstr' "BYCA0000", cstr' "BYCA1000", [], [2, 2, 0, 7, 0, 7], [2, 3, 0, 7, 0, 7], [], [], []⟩ = .ok := by decide +kernel
 
@@ -201,19 +199,13 @@ theorem altered_body_differs (cert cert' : Bytes) (t t2 i : Nat) (hi : t ≤ i) 
   rw [← e1, ← e2, h]
 example : ([1, 2, 3, 4, 5] : Bytes)[2]? ≠ ([1, 2, 9, 4, 5] : Bytes)[2]? := by decide
 
-/-
-FULL STATEMENT (not proved): for every content `c` that passes btokCVCCheck and every admissible private key,
-  cvcWrap S c priv = (.ok, c', cert) → cvcUnwrap S cert (.key pub) = .ok c'    (pub = the key matching priv),
-for every `Sig` satisfying `SigLaws`.  Proved below: the acceptance half of it relative to the DER layer — IF the
-certificate decodes (outer SEQ start/stop, btokCVCBodyDec, the signature OCTET STRING, nothing left over) to the content
-`c'` and the body octets `body`, `c'.sig` is what btokSign produced over `body` with a private key matching `pub`, and `c'`
-passes btokCVCCheck, THEN btokCVCUnwrap under `pub` returns exactly `c'`: the signature length derived from the
-verification key is the one written for every key length (34/48/72/96), Verify is applied to the octets that were signed
-(completeness of the signature layer), and the final check sees the same content.  Missing for the full statement: that
-btokCVCWrap's output does decode like this (bodyDec ∘ bodyEnc and the outer SEQ: DER round trips through the SEQ anchors),
-covered by the correspondence run only.
--/
-theorem cvcUnwrap_accepts_signed_partial (S : Sig) (L : SigLaws S) (c' : Cvc) (body cert priv pub : Bytes)
+/-- ACCEPTANCE relative to the DER layer (the composition logic of btokCVCUnwrap): if the certificate decodes (outer SEQ
+start/stop, btokCVCBodyDec, the signature OCTET STRING, nothing left over) to the content `c'` and the body octets `body`,
+`c'.sig` is what btokSign produced over `body` with a private key matching `pub`, and `c'` passes btokCVCCheck, then
+btokCVCUnwrap under `pub` returns exactly `c'`: the signature length derived from the verification key is the one
+written for every key length (34/48/72/96), Verify is applied to the octets that were signed.  `cvc_roundtrip` below
+discharges the decode hypotheses for everything btokCVCWrap writes. -/
+theorem cvcUnwrap_accepts_signed (S : Sig) (L : SigLaws S) (c' : Cvc) (body cert priv pub : Bytes)
     (hpl : privLenOk priv.length = true) (hkp : S.keypairVal priv pub = .ok)
     (hsign : S.sign body priv = (.ok, c'.sig)) (hcheck : cvcCheck S c' = .ok)
     (a : Bee2V.C08.Anchor) (t t3 : Nat)
@@ -238,6 +230,66 @@ theorem cvcUnwrap_accepts_signed_partial (S : Sig) (L : SigLaws S) (c' : Cvc) (b
   unfold cvcUnwrap.go
   simp only [h1, ofR, h2, sigLenOf, hsiglen, h4, h3, hv, ne_eq, not_true_eq_false, if_false, h5, h6, Nat.sub_self, hcheck]
 
+/-! ### round trip: btokCVCUnwrap (btokCVCWrap c key) = c -/
+
+/-- ROUND TRIP.  For every signature layer satisfying `SigLaws`, every content (names, dates, key of every admissible
+length, zero or non-zero access words of 5 / 2 octets) and every private key that btokCVCWrap accepts: the
+certificate it writes is parsed back by btokCVCUnwrap, under the public key `pub` matching the signing key, to EXACTLY
+the content Wrap reports (with the public key filled in when it was derived, and the signature).
+DER layer: C08 (`Nested`, typed round trips); `bodyEnc_eq` / `bodyDec_bodyCode` for the body. -/
+theorem cvc_roundtrip (S : Sig) (L : SigLaws S) (c c' : Cvc) (priv pub cert : Bytes)
+    (he : c.hatEid.length = 5) (hs : c.hatEsign.length = 2) (hkp : S.keypairVal priv pub = .ok)
+    (h : cvcWrap S c priv = (.ok, c', cert)) :
+    cvcUnwrap S cert (.key pub) = .ok c' := by
+  obtain ⟨hpl, body, a, t, t3, hck, hsign, _, f1, f2, f3, f4, f5, f6⟩ := cvcWrap_facts S L c c' priv cert he hs h
+  exact cvcUnwrap_accepts_signed S L c' body cert priv pub hpl hkp hsign hck a t t3 f1 f2 f3 f4 f5 f6
+
+/-- the same without a key (`btokCVCUnwrap(cvc, cert, len, 0, 0)`, the call btokCVCIss / Val / Match make on the
+issuer certificate): the signature length is found by the probe 34 | 48 | 72 | 96, nothing is verified, the content is
+the same. -/
+theorem cvc_roundtrip_nokey (S : Sig) (L : SigLaws S) (c c' : Cvc) (priv cert : Bytes)
+    (he : c.hatEid.length = 5) (hs : c.hatEsign.length = 2) (h : cvcWrap S c priv = (.ok, c', cert)) :
+    cvcUnwrap S cert .none = .ok c' := by
+  obtain ⟨hpl, body, a, t, t3, hck, hsign, hp, f1, f2, f3, f4, f5, f6⟩ := cvcWrap_facts S L c c' priv cert he hs h
+  exact cvcUnwrap_none_of_facts S c' body cert hck a t t3 f1 f2 hp f4 f5 f6
+
+/-- ISSUE ⇒ VALIDATES.  A certificate issued by btokCVCIss under the issuer certificate `certa` and the issuer's
+private key validates against `certa` with btokCVCVal (no date given): the chain link lines up by construction. -/
+theorem cvcIss_validates (S : Sig) (L : SigLaws S) (c c' : Cvc) (certa priva cert : Bytes)
+    (he : c.hatEid.length = 5) (hs : c.hatEsign.length = 2) (h : cvcIss S c certa priva = (.ok, c', cert)) :
+    cvcVal S cert certa none = .ok := by
+  unfold cvcIss at h
+  cases hu : cvcUnwrap S certa .none with
+  | error e => rw [hu] at h; exact absurd (Prod.mk.inj h).1 (cvcUnwrap_err S certa _ e hu)
+  | ok ca =>
+    rw [hu] at h; dsimp only at h
+    by_cases h2 : cvcCheck2 S c ca ≠ .ok
+    · rw [if_pos h2] at h; exact absurd (Prod.mk.inj h).1 h2
+    rw [if_neg h2] at h
+    by_cases h3 : S.keypairVal priva ca.pubkey ≠ .ok
+    · rw [if_pos h3] at h; exact absurd (Prod.mk.inj h).1 h3
+    rw [if_neg h3] at h
+    have h2' : cvcCheck2 S c ca = .ok := by simpa using h2
+    have h3' : S.keypairVal priva ca.pubkey = .ok := by simpa using h3
+    have hrt := cvc_roundtrip S L c c' priva ca.pubkey cert he hs h3' h
+    -- the content Wrap reports differs from `c` only in the signature: the public key was present (Check2 passed)
+    obtain ⟨hpl, c1, hg, hw⟩ := cvcWrap_inv S c c' priva cert h
+    obtain ⟨hck, body, hb, hsg⟩ := wrapChecked_inv S c1 c' priva cert hw
+    obtain ⟨sg, hsign, hc', hce⟩ := wrapSign_inv S c1 c' body priva cert hsg
+    have hc0 := (cvcCheck2_ok_iff S c ca).mp h2'
+    have hpk : c.pubkey.length ≠ 0 := by
+      have := L.pubVal_len _ ((cvcCheck_ok_iff S c).mp hc0.1).2.2.2.2.2
+      simp only [pubkeyLenOk, pubLens_eq] at this
+      intro h0; rw [h0] at this; simp at this
+    have hc1 : c1 = c := by
+      rcases wrapGenPub_inv S c c1 priva hg with h1 | ⟨h0, _⟩
+      · exact h1
+      · exact absurd h0 hpk
+    rw [cvcVal_ok_iff]
+    refine ⟨ca, c', hu, hrt, ?_, by simp [dateCheck]⟩
+    rw [hc', hc1]
+    exact h2'
+
 /-! ### non-vacuity: the laws of the signature layer are satisfiable -/
 
 /-- a toy signature layer: the public key is the private key twice, every signature is `sigLen` zero octets and verifies -/
@@ -246,12 +298,6 @@ def toySig : Sig :=
    fun pub => if pubkeyLenOk pub.length then .ok else .badInput,
    fun priv pub => if pub = priv ++ priv ∧ privLenOk priv.length = true then .ok else .badKeypair,
    fun _ priv => (.ok, List.replicate (sigLenOfPriv priv.length) 0), fun _ _ _ => .ok⟩
-
-theorem toy_lens (n : Nat) (h : privLenOk n = true) : pubkeyLenOk (n + n) = true := by
-  simp only [privLenOk, privLens_eq] at h
-  have : n = 24 ∨ n = 32 ∨ n = 48 ∨ n = 64 := by simpa using h
-  simp only [pubkeyLenOk, pubLens_eq]
-  rcases this with h | h | h | h <;> simp [h]
 
 example : SigLaws toySig where
   calc_len := by
